@@ -889,3 +889,52 @@ def moved_panic_reason(crate, fn, kind, allowed, present):
         if any(p[1] == kind and re.sub(r"(::\{closure#\d+\})+$", "", p[0]) == c for p in present):
             return None
     return "reviewed %s site(s) of %s moved into this private helper" % (kind, ", ".join(sorted(callers)))
+
+
+# ----------------------------------------------------------------------------------------------
+# parameters and let-bound locals by role (never by spelling)
+
+def param_pat(h, i):
+    ps = h.get("params", [])
+    return ps[i] if 0 <= i < len(ps) else None
+
+
+def is_param(n, h, i):
+    """n is a path to the i-th parameter of the function whose HIR entry is h (0 = self for methods)"""
+    p = param_pat(h, i)
+    r = path_res(n)
+    if not p or not r or r.get("r") != "local":
+        return False
+    while p.get("k") in ("PRef",):
+        p = p["pat"]
+    return p.get("k") == "PBinding" and p.get("id") == r.get("id") and p.get("name") == r.get("name")
+
+
+def param_name(h, i):
+    p = param_pat(h, i)
+    while p and p.get("k") in ("PRef",):
+        p = p["pat"]
+    return p.get("name") if p and p.get("k") == "PBinding" else None
+
+
+def closure_param_names(clo, i=None):
+    """names bound by the i-th parameter pattern of a closure (all parameters when i is None)"""
+    ps = clo.get("params", []) if clo else []
+    if i is not None:
+        ps = ps[i:i + 1]
+    return [x["name"] for p in ps for x in walk(p) if x.get("k") == "PBinding"]
+
+
+def let_name(body, pred, into_closures=True):
+    """name bound by the (unique) `let <name> = <init>` whose init satisfies pred; None if none or several"""
+    found = []
+    for st in exprs(body, "SLet", into_closures):
+        if "init" in st and st["pat"].get("k") == "PBinding" and pred(strip(st["init"])):
+            found.append(st["pat"]["name"])
+    return found[0] if len(found) == 1 else None
+
+
+def let_init(body, name):
+    """the initialiser of `let name = ..` (None if absent or ambiguous)"""
+    found = [st["init"] for st in exprs(body, "SLet") if "init" in st and st["pat"].get("k") == "PBinding" and st["pat"]["name"] == name]
+    return found[0] if len(found) == 1 else None
